@@ -31,10 +31,12 @@ int main(int argc, char** argv){
     char** o = argv + 4; int no = argc - 4;
     struct reb_simulation* r = reb_simulation_create();
     struct reb_particle p = {0};
+    if (!getenv("C09_EMPTY")){      /* C09_EMPTY: a simulation without particles */
     p.m = 1.0; reb_simulation_add(r, p);
     p.m = 1e-3; p.x = 1.0; p.y = 0.02; p.z = 0.01; p.vx = -0.01; p.vy = 1.0; p.vz = 0.02; reb_simulation_add(r, p);
     p.m = 5e-4; p.x = -0.1; p.y = 2.3; p.z = -0.03; p.vx = -0.65; p.vy = -0.02; p.vz = 0.01; reb_simulation_add(r, p);
     reb_simulation_move_to_com(r);
+    }
     r->dt = dt;
     r->exact_finish_time = 0;
     if (!strcmp(integ, "whfast") && no >= 7){
@@ -74,7 +76,8 @@ int main(int argc, char** argv){
         else return 3;
         mark(r, k);
     }
-    printf("STATE %.17g %.17g %.17g\n", r->particles[1].x, r->particles[1].vy, r->t);
+    if (r->N > 1) printf("STATE %.17g %.17g %.17g\n", r->particles[1].x, r->particles[1].vy, r->t);
+    else printf("STATE 0 0 %.17g\n", r->t);
     reb_simulation_free(r);
     return 0;
 }
